@@ -74,7 +74,10 @@ func (exec *execCtx) assemble() {
 					rng = &exec.lastChildRange
 				}
 				// payload of all children except the last are written, write last payload
-				exec.copyChild(exec.lastChildID, rng, false)
+				// (zero-length range of the last child means "nothing", not "everything")
+				if rng == nil || rng.GetLength() > 0 {
+					exec.copyChild(exec.lastChildID, rng, false)
+				}
 			}
 		}
 	} else {
